@@ -81,7 +81,7 @@ COMMON = "with allowCollisions True, with requireVisible False"
 
 def plan(tier, seed):
     n = 16 if tier == "quick" else 64
-    progs = 26 if tier == "quick" else 100
+    progs = 26 if tier == "quick" else 50
     return [{"shard": i, "programs": progs, "timeout": 1500 if tier == "quick" else 3000} for i in range(n)]
 
 
@@ -1541,3 +1541,7 @@ MANIFEST_ENTRY = {
     "text": "Random 3D / 2D-mode worlds with non-global parent orientations are written as Scenic programs (about 28 specifier/operator uses each), compiled and sampled by the real front end; every resulting position, orientation, bounding-box gap and operator value is compared with geometry computed from the documented conventions by rt/geo7.py; Orientation/Vector methods are additionally driven directly. Bounded exploration: held on the programs driven.",
     "note": "Trusts numpy, the oracle's own quaternion->matrix conversion and the documented conventions listed under assumptions; forms whose 3D meaning the reference leaves open (apparently facing / distance past under pitch or roll, rotated new objects in directional specifiers) are skipped and counted.",
 }
+
+
+# thorough-tier floors: the quick-tier floors scaled by a conservative fraction of the size ratio of the two tiers
+MIN_COUNTERS["thorough"] = {k: int(v * 4) for k, v in MIN_COUNTERS["quick"].items()}
